@@ -20,14 +20,16 @@ def main():
     checks = [pid]
     tier = "quick"
     verify = True
+    wt_override = None
     i = 1
     while i < len(a):
         if a[i] == "--name": name = a[i+1]; i += 2
         elif a[i] == "--checks": checks = a[i+1].split(","); i += 2
         elif a[i] == "--tier": tier = a[i+1]; i += 2
         elif a[i] == "--skip-verify": verify = False; i += 1
+        elif a[i] == "--wt": wt_override = a[i+1]; i += 2
         else: raise SystemExit("bad arg " + a[i])
-    wt = f"/tmp/wt-{pid}"
+    wt = wt_override or f"/tmp/wt-{pid}"
     sd = f"{wt}/SEEDED"
     out = f"/verif/seeded/{name}"
     os.makedirs(out, exist_ok=True)
